@@ -175,7 +175,7 @@ func (d *DataRow) SetReferences() (err error) {
 func (d *DataRow) GetString(col *Column) string {
 	if col.Optional != NoFlags && !d.dataStore.peer.HasFlag(col.Optional) {
 		// this backend does not provide the column, the row has no slot for it
-		return interface2stringNoDedup(col.GetEmptyValue())
+		return emptyValueString(col)
 	}
 	switch col.StorageType {
 	case LocalStore:
@@ -204,7 +204,7 @@ func (d *DataRow) GetString(col *Column) string {
 	case RefStore:
 		ref := d.refs[col.RefColTableName]
 		if ref == nil {
-			return interface2stringNoDedup(col.GetEmptyValue())
+			return emptyValueString(col)
 		}
 
 		return ref.GetString(col.RefCol)
@@ -212,6 +212,16 @@ func (d *DataRow) GetString(col *Column) string {
 		return interface2stringNoDedup(d.getVirtualRowValue(col))
 	}
 	panic(fmt.Sprintf("unsupported type: %s", col.DataType))
+}
+
+// emptyValueString returns the text GetString returns for the empty value of a column.
+func emptyValueString(col *Column) string {
+	if col.DataType == StringListCol {
+		// the text of a list without entries, not the "[]" fmt prints for it
+		return ""
+	}
+
+	return interface2stringNoDedup(col.GetEmptyValue())
 }
 
 // GetStringByName returns the string value for given column name.
